@@ -25,6 +25,9 @@ def run(ctx: Ctx) -> None:
     he = repo.func(M, "WSStream._handle_events")
     w = f"{M}:WSStream._handle_events"
     g = CFG(he)
+    loops = [n for n in walk_local(he) if isinstance(n, ast.For)]
+    ok = len(loops) == 1 and norm(loops[0].iter) == "self.connection.events()"
+    ctx.check("C10.R7", w, "for event in connection.events() - consumed lazily, one event at a time", ok, "wsproto's events() is a generator that parses as it goes and updates the connection state frame by frame: materialising it (list(...)) lets a Close frame in the same read flip the state before the Pong for an earlier Ping is built, and the Pong is refused", loops[0] if loops else he)
     marm = arm_for(he, "event", "Message")
     ctx.need(marm is not None, "_handle_events: no Message arm")
     puts = find_in(marm.body, "self.app_put")
@@ -153,9 +156,6 @@ def run(ctx: Ctx) -> None:
     hev = find_calls(hd, "self._handle_events")
     ok = len(rd) == 1 and norm(arg(rd[0], 0)) == "event.data" and len(hev) == 1 and rd[0].lineno < hev[0].lineno and guard_atoms(rd[0]) == guard_atoms(hev[0])
     ctx.check("C10.R7", f"{M}:WSStream.handle", "receive_data(event.data) then _handle_events()", ok, "every received byte must be fed to wsproto before its events are processed", rd[0] if rd else hd)
-    loops = [n for n in walk_local(he) if isinstance(n, ast.For)]
-    ok = len(loops) == 1 and norm(loops[0].iter) == "self.connection.events()"
-    ctx.check("C10.R7", w, "for event in connection.events()", ok, "all wsproto events must be visited in order", loops[0] if loops else he)
     sw = repo.func(M, "WSStream._send_wsproto_event")
     cs = find_calls(sw, "self.connection.send")
     sd = [c for c in calls(sw) if call_name(c) == "self.send"]
